@@ -185,6 +185,8 @@ def run(ctx):
             lambda: loops.two_exit_loop(N % 2, 100, 2 * N + 1, "budget"),
             lambda: loops.two_exit_loop(0, 2 * N, 100, "budget"),
             lambda: loops.fanout_join_loop(4 * N, N % 2, "empty"),
+            lambda: loops.early_read_signal_loop(N, 0, "route"),
+            lambda: loops.early_read_signal_loop(N + 1, 1, "ifelse"),
             lambda: loops.fanout_join_loop(4 * N, 0, "empty", True),
         ):
             if ctx.shard[0] != sysn % ctx.shard[1]:
